@@ -55,6 +55,8 @@ fn spell(path: &str, form: Form) -> String {
 
 const MEDIA: &[&str] = &["", "screen", "(w:1px)", "screen and (w:75rpx)", "all and (w:1px)", "all, print", "not all", "only screen and (color), print and (w:2px)"];
 /// layer conditions: none, a plain name, a dotted name, the bare keyword
+/// supports() conditions: none, a declaration, a negation, a conjunction, a selector() test with a class and an rpx length
+const SUPPORTS: &[&str] = &["", "d:v", "not (d:v)", "(a:b) and (c:1rpx)", "selector(.s > t)"];
 const LAYERS: &[(&str, &str)] = &[("", ""), (" layer(x)", "x"), (" layer(a.b.c)", "a.b.c"), (" layer", "")];
 const POSITIONS: &[(&str, &str)] = &[
     ("first", ""),
@@ -91,21 +93,23 @@ struct Case {
     path: String,
     form: Form,
     layer: usize,
-    supports: bool,
+    supports: usize,
     media: usize,
     pos: usize,
     sign: bool,
     trailing_rule: bool,
 }
 
-fn make_case(path: &str, form: Form, layer: usize, supports: bool, media: usize, pos: usize, sign: bool, trailing_rule: bool) -> Case {
+fn make_case(path: &str, form: Form, layer: usize, supports: usize, media: usize, pos: usize, sign: bool, trailing_rule: bool) -> Case {
     let mut t = String::new();
     t.push_str(POSITIONS[pos].1);
     t.push_str("@import ");
     t.push_str(&spell(path, form));
     t.push_str(LAYERS[layer].0);
-    if supports {
-        t.push_str(" supports(d:v)");
+    if supports != 0 {
+        t.push_str(" supports(");
+        t.push_str(SUPPORTS[supports]);
+        t.push(')');
     }
     if !MEDIA[media].is_empty() {
         t.push(' ');
@@ -167,12 +171,10 @@ fn check(c: &Case) -> Result<Option<Vec<(String, String)>>, String> {
             exp.push(T::OpenCurly);
             closers += 1;
         }
-        if c.supports {
+        if c.supports != 0 {
             exp.push(T::AtKw("supports".into()));
             exp.push(T::OpenParen);
-            exp.push(T::Ident("d".into()));
-            exp.push(T::Colon);
-            exp.push(T::Ident("v".into()));
+            exp.extend(passthrough(SUPPORTS[c.supports], &opts));
             exp.push(T::CloseParen);
             exp.push(T::OpenCurly);
             closers += 1;
@@ -246,8 +248,8 @@ fn case_of(i: u64, maxlen: u32) -> Case {
     k /= POSITIONS.len() as u64;
     let media = (k % MEDIA.len() as u64) as usize;
     k /= MEDIA.len() as u64;
-    let supports = k % 2 == 1;
-    k /= 2;
+    let supports = (k % SUPPORTS.len() as u64) as usize;
+    k /= SUPPORTS.len() as u64;
     let layer = (k % LAYERS.len() as u64) as usize;
     k /= LAYERS.len() as u64;
     let form = FORMS[(k % 4) as usize];
@@ -261,7 +263,7 @@ pub fn explore(thorough: bool, result_path: &str) {
     silence_panics();
     let maxlen = if thorough { 4 } else { 3 };
     let npaths = str_space_size(SIGMA_P.len() as u64, maxlen);
-    let per_path = 4 * LAYERS.len() as u64 * 2 * MEDIA.len() as u64 * POSITIONS.len() as u64 * 2 * 2;
+    let per_path = 4 * LAYERS.len() as u64 * SUPPORTS.len() as u64 * MEDIA.len() as u64 * POSITIONS.len() as u64 * 2 * 2;
     // quick: paths of length <= 3 with the full condition cube only for length <= 2; longer paths with a reduced cube
     let full = if thorough { str_space_size(SIGMA_P.len() as u64, 3) } else { str_space_size(SIGMA_P.len() as u64, 2) };
     let reduced_per_path: u64 = 4 * 2; // form x sign, with one fixed condition set
@@ -275,7 +277,7 @@ pub fn explore(thorough: bool, result_path: &str) {
             let r = k % reduced_per_path;
             let idx = str_unrank(p, SIGMA_P.len() as u64, maxlen);
             let path: String = idx.iter().map(|x| SIGMA_P[*x]).collect();
-            make_case(&path, FORMS[(r % 4) as usize], 1, false, 3, if r / 4 == 0 { 0 } else { 2 }, r / 4 == 0 || true, false)
+            make_case(&path, FORMS[(r % 4) as usize], 1, 0, 3, if r / 4 == 0 { 0 } else { 2 }, r / 4 == 0 || true, false)
         };
         rep.transitions += 1;
         match check(&c) {
@@ -305,7 +307,7 @@ pub fn explore(thorough: bool, result_path: &str) {
     let res = rep.to_result(
         "C18",
         "every import path over the 18-symbol alphabet up to the stated length, in string / url forms, with every combination of layer() / supports() / media conditions at every listed position, with and without an import sign; non-trivial = an import sign is configured; distinct = distinct input text",
-        json!({"path_alphabet": SIGMA_P, "path_length_full_cube": if thorough {3} else {2}, "path_length_reduced_cube": maxlen, "forms": ["\"…\"", "'…'", "url(…)", "url(\"…\")"], "media": MEDIA, "layer_conditions": LAYERS.iter().map(|l| l.0).collect::<Vec<_>>(), "positions": POSITIONS.iter().map(|p| p.0).collect::<Vec<_>>()}),
+        json!({"path_alphabet": SIGMA_P, "path_length_full_cube": if thorough {3} else {2}, "path_length_reduced_cube": maxlen, "forms": ["\"…\"", "'…'", "url(…)", "url(\"…\")"], "media": MEDIA, "supports_conditions": SUPPORTS, "layer_conditions": LAYERS.iter().map(|l| l.0).collect::<Vec<_>>(), "positions": POSITIONS.iter().map(|p| p.0).collect::<Vec<_>>()}),
         true,
         &["cssparser tokenizer gives the path a spelling denotes and the tokens of the output", "an independent percent-decoder recovers the path from the placeholder"],
         Map::new(),
@@ -321,7 +323,7 @@ pub fn replay(v: &Value) -> Value {
         "UrlDq" => Form::UrlDq,
         _ => Form::Dq,
     };
-    let c = make_case(v["path"].as_str().unwrap(), form, v["layer"].as_u64().unwrap() as usize, v["supports"].as_bool().unwrap(), v["media"].as_u64().unwrap() as usize, v["pos"].as_u64().unwrap() as usize, v["sign"].as_bool().unwrap(), v["trailing"].as_bool().unwrap());
+    let c = make_case(v["path"].as_str().unwrap(), form, v["layer"].as_u64().unwrap() as usize, v["supports"].as_u64().unwrap() as usize, v["media"].as_u64().unwrap() as usize, v["pos"].as_u64().unwrap() as usize, v["sign"].as_bool().unwrap(), v["trailing"].as_bool().unwrap());
     let go = || match check(&c) {
         Ok(Some(p)) => p.into_iter().map(|x| format!("{}: {}", x.0, x.1)).collect::<Vec<_>>(),
         Ok(None) => vec![],
